@@ -211,3 +211,130 @@ func reuseCase(c *ev.Case) {
 		c.Sample(fmt.Sprintf("buffer reuse: AES-%d, %d consecutive CBC+GCM encrypt/decrypt calls through one key/iv/nonce/aad buffer overwritten in between, each compared with crypto/cipher under the buffer's current content", klen*8, steps))
 	}
 }
+
+// coldCase: each case runs alone in a freshly started process, so its first
+// golib call is the very first use of the package in that process (tables that
+// are filled lazily, or only by another entry point, would still be empty).
+func coldCase(c *ev.Case) {
+	rng := c.Rng
+	klen := keySizes[c.Index%3]
+	key, iv, nonce := rng.Bytes(klen), rng.Bytes(blk), rng.Bytes(12)
+	n := []int{0, 5, 16, 31}[(c.Index/4)%4]
+	pt := rng.Bytes(n)
+	b, err := aes.NewCipher(key)
+	if err != nil {
+		c.Run().HarnessFailure("reference NewCipher: " + err.Error())
+		return
+	}
+	first := []string{"AESCBCDecrypt", "PKCS7UnPadding", "AESGCMDecrypt", "AESCBCEncrypt"}[c.Index%4]
+	c.Logf("first cryptz call in this process: %s (plaintext %d bytes, AES-%d)", first, n, klen*8)
+	switch first {
+	case "AESCBCDecrypt":
+		ct := cbcEncRaw(b, iv, refPad(pt, blk))
+		out := make([]byte, len(ct))
+		var m int
+		var e error
+		if !c.Guard("AESCBCDecrypt", func() { m, e = cryptz.AESCBCDecrypt(out, ct, key, iv) }) {
+			return
+		}
+		if e != nil || m != n || !bytes.Equal(out[:min(m, len(out))], pt) {
+			c.Failf("cold-start/AESCBCDecrypt", "AESCBCDecrypt as the first call of the process on a valid standard ciphertext: n=%d err=%v, want the %d-byte plaintext", m, e, n)
+			return
+		}
+	case "PKCS7UnPadding":
+		bs := rng.Range(1, 32)
+		d := rng.Bytes(rng.Range(1, 40))
+		padded := refPad(d, bs)
+		var got []byte
+		var e error
+		if !c.Guard("PKCS7UnPadding", func() { got, e = cryptz.PKCS7UnPadding(clone(padded), bs) }) {
+			return
+		}
+		if e != nil || !bytes.Equal(got, d) {
+			c.Failf("cold-start/PKCS7UnPadding", "PKCS7UnPadding as the first call of the process: err=%v got %s want %s (block size %d)", e, hx(got), hx(d), bs)
+			return
+		}
+	case "AESGCMDecrypt":
+		g, err := refGCM(key, 12)
+		if err != nil {
+			c.Run().HarnessFailure("reference GCM: " + err.Error())
+			return
+		}
+		sealed := g.Seal(nil, nonce, pt, nil)
+		out := make([]byte, n)
+		var e error
+		if !c.Guard("AESGCMDecrypt", func() { e = cryptz.AESGCMDecrypt(out, sealed, key, nonce, nil) }) {
+			return
+		}
+		if e != nil || !bytes.Equal(out, pt) {
+			c.Failf("cold-start/AESGCMDecrypt", "AESGCMDecrypt as the first call of the process: err=%v", e)
+			return
+		}
+	default:
+		want := cbcEncRaw(b, iv, refPad(pt, blk))
+		dst := make([]byte, len(want))
+		var e error
+		if !c.Guard("AESCBCEncrypt", func() { e = cryptz.AESCBCEncrypt(dst, pt, key, iv) }) {
+			return
+		}
+		if e != nil || !bytes.Equal(dst, want) {
+			c.Failf("cold-start/AESCBCEncrypt", "AESCBCEncrypt as the first call of the process differs from the reference: err=%v", e)
+			return
+		}
+	}
+	c.Add("cold_start_cases", 1)
+	c.Distinct(ev.Mix(uint64(c.Index), 55))
+	if c.WantSample() {
+		c.Sample(fmt.Sprintf("cold start: fresh process, first cryptz call %s", first))
+	}
+}
+
+// bigCase: megabyte-sized inputs (implementations may switch strategy with size).
+func bigCase(c *ev.Case) {
+	rng := c.Rng
+	klen := keySizes[c.Index%3]
+	n := rng.Pick(256<<10, 512<<10, 512<<10+16, 768<<10, 1<<20, 3<<20) + rng.Pick(0, 0, 1, 15, 16)
+	key, iv := rng.Bytes(klen), rng.Bytes(blk)
+	pt := rng.Bytes(n)
+	b, err := aes.NewCipher(key)
+	if err != nil {
+		c.Run().HarnessFailure("reference NewCipher: " + err.Error())
+		return
+	}
+	want := cbcEncRaw(b, iv, refPad(pt, blk))
+	c.Logf("AES-%d CBC on %d bytes", klen*8, n)
+	for _, inplace := range []bool{false, true} {
+		dst := make([]byte, len(want))
+		src := pt
+		if inplace {
+			copy(dst, pt)
+			src = dst[:n]
+		}
+		var e error
+		if !c.Guard("AESCBCEncrypt", func() { e = cryptz.AESCBCEncrypt(dst, src, key, iv) }) {
+			return
+		}
+		if e != nil || !bytes.Equal(dst, want) {
+			c.Failf("cbc-encrypt-diff/big", "AESCBCEncrypt (in place: %v) of %d bytes differs from the reference at byte %d (err=%v)", inplace, n, firstDiff(dst, want), e)
+			return
+		}
+		ct := clone(want)
+		out := make([]byte, len(ct))
+		if inplace {
+			out = ct
+		}
+		var m int
+		if !c.Guard("AESCBCDecrypt", func() { m, e = cryptz.AESCBCDecrypt(out, ct, key, iv) }) {
+			return
+		}
+		if e != nil || m != n || !bytes.Equal(out[:min(m, len(out))], pt) {
+			c.Failf("cbc-decrypt-diff/big", "AESCBCDecrypt (in place: %v) of a %d-byte message: n=%d err=%v, first difference at byte %d", inplace, n, m, e, firstDiff(out[:min(m, len(out))], pt))
+			return
+		}
+	}
+	c.Add("big_cases", 1)
+	c.Distinct(ev.Mix(uint64(n), uint64(klen), ev.HashBytes(key)))
+	if c.WantSample() {
+		c.Sample(fmt.Sprintf("big: AES-%d CBC encrypt/decrypt, separate and in place, %d bytes == reference", klen*8, n))
+	}
+}
